@@ -44,7 +44,7 @@ Fixpoint qwt_levels (w bsize : N) (seq : list N) (shift : N) (nl : nat) : outcom
 (* QWaveletTree::new *)
 Definition qwt_new (w bsize : N) (seq : list N) : outcome qwt :=
   match seq with
-  | [] => Val {| q_n := 0; q_n_levels := 0; q_sigma := 0; q_qvs := [rsq_default] |}
+  | [] => let! d := rsq_default bsize in Val {| q_n := 0; q_n_levels := 0; q_sigma := 0; q_qvs := [d] |}
   | _ =>
       let sigma := maxN seq in
       let log_sigma := msb sigma + 1 in
